@@ -146,6 +146,13 @@ func (c *Ctx) resolveX(v ssa.Value, e *env, strip bool) (ssa.Value, *env) {
 			}
 		}
 		switch x := v.(type) {
+		case *ssa.Function:
+			// a method expression T.m is a synthetic thunk around m: the function meant is m
+			if u := unwrapThunk(x); u != x {
+				v = u
+				continue
+			}
+			return v, e
 		case *ssa.Phi:
 			if e != nil {
 				if r, ok := e.phi[x]; ok {
@@ -1098,6 +1105,15 @@ func (c *Ctx) atoms(cond ssa.Value, pol bool, e *env) []Atom {
 			return []Atom{{Kind: "call", Subj: "haskey:" + c.key(lk.X, e), Val: c.key(lk.Index, e), Pos: pol, Src: cond, Args: []ssa.Value{c.resolve(lk.Index, e)}}}
 		}
 	case *ssa.Call:
+		// membership in a package-level list of constants: not-in is the conjunction of the inequalities
+		// (the positive direction is a disjunction: atomAlts)
+		if elems, subj, se, ok := c.membershipCall(x, e); ok && !pol {
+			var out []Atom
+			for _, el := range elems {
+				out = append(out, Atom{Kind: "cmp", Subj: c.key(subj, se), Op: "!=", Val: c.key(el, nil), Src: cond, Neg: true})
+			}
+			return out
+		}
 		if f := c.calleeE(x, e); f != nil {
 			var ks []string
 			var rargs []ssa.Value
@@ -1205,4 +1221,128 @@ func (c *Ctx) domAtoms(b *ssa.BasicBlock) []Atom {
 		out = append(out, c.atoms(f.Cond, f.Pol, nil)...)
 	}
 	return out
+}
+
+// membershipCall: call is slices.Contains(G, x) (or slices.Index(G, x) compared by the caller) for a
+// package-level slice G that is a literal of constants written only by the initialiser.
+func (c *Ctx) membershipCall(call *ssa.Call, e *env) (elems []ssa.Value, subj ssa.Value, se *env, ok bool) {
+	f := call.Call.StaticCallee()
+	if f == nil || len(call.Call.Args) != 2 || !strings.HasPrefix(f.String(), "slices.Contains[") {
+		return nil, nil, nil, false
+	}
+	if lit, _, isLit := c.sliceLiteralE(call.Call.Args[0], e); isLit {
+		// a list written in place
+		elems = lit
+	} else {
+		g := c.globalBehind(call.Call.Args[0], e)
+		if g == nil || !c.onlyInitWrites(g) {
+			return nil, nil, nil, false
+		}
+		arr := c.globalSliceArray(g)
+		if arr == nil {
+			return nil, nil, nil, false
+		}
+		elems = localArrayElems(arr)
+	}
+	if len(elems) == 0 {
+		return nil, nil, nil, false
+	}
+	for _, el := range elems {
+		if _, isC := el.(*ssa.Const); !isC {
+			return nil, nil, nil, false
+		}
+	}
+	subj, se = c.resolveE(call.Call.Args[1], e)
+	return elems, subj, se, true
+}
+
+// atomAlts: the condition in disjunctive form — a list of alternative conjunctions. Everything is a
+// single conjunction except a positive membership test, which is one alternative per member.
+func (c *Ctx) atomAlts(cond ssa.Value, pol bool, e *env) [][]Atom {
+	alts, _ := c.atomAltsB(cond, pol, e)
+	return alts
+}
+
+// atomAltsB also returns, per alternative, values that are known on it: a successful comma-ok lookup in a
+// small package-level table of constants is one alternative per entry, on which the value looked up is
+// the entry's value.
+func (c *Ctx) atomAltsB(cond ssa.Value, pol bool, e *env) ([][]Atom, []map[ssa.Value]ssa.Value) {
+	cv := c.resolve(cond, e)
+	if ex, ok := cv.(*ssa.Extract); ok && ex.Index == 1 {
+		if lk, ok := ex.Tuple.(*ssa.Lookup); ok && lk.CommaOk {
+			if g := c.globalBehind(lk.X, e); g != nil && c.onlyInitWrites(g) {
+				tb := c.readTable(g.Pkg.Pkg.Path(), g.Name())
+				small := tb.Err == "" && len(tb.Entries) > 0 && len(tb.Entries) <= 4
+				for _, en := range tb.Entries {
+					if _, isC := en.Key.(*ssa.Const); !isC {
+						small = false
+					}
+				}
+				if small {
+					base := c.atoms(cond, pol, e)
+					subj, se := c.resolveE(lk.Index, e)
+					sk := c.key(subj, se)
+					var val0 ssa.Value
+					if refs := lk.Referrers(); refs != nil {
+						for _, ref := range *refs {
+							if e0, ok := ref.(*ssa.Extract); ok && e0.Index == 0 {
+								val0 = e0
+							}
+						}
+					}
+					if !pol {
+						out := append([]Atom(nil), base...)
+						for _, en := range tb.Entries {
+							out = append(out, Atom{Kind: "cmp", Subj: sk, Op: "!=", Val: c.key(en.Key, nil), Src: cond, Neg: true})
+						}
+						return [][]Atom{out}, []map[ssa.Value]ssa.Value{nil}
+					}
+					var alts [][]Atom
+					var binds []map[ssa.Value]ssa.Value
+					for _, en := range tb.Entries {
+						alt := append(append([]Atom(nil), base...), Atom{Kind: "cmp", Subj: sk, Op: "==", Val: c.key(en.Key, nil), Src: cond})
+						alts = append(alts, alt)
+						if val0 != nil {
+							binds = append(binds, map[ssa.Value]ssa.Value{val0: en.Val})
+						} else {
+							binds = append(binds, nil)
+						}
+					}
+					return alts, binds
+				}
+			}
+		}
+	}
+	alts := c.atomAlts0(cond, pol, e)
+	return alts, make([]map[ssa.Value]ssa.Value, len(alts))
+}
+
+func (c *Ctx) atomAlts0(cond ssa.Value, pol bool, e *env) [][]Atom {
+	cv := c.resolve(cond, e)
+	neg := false
+	for {
+		u, ok := cv.(*ssa.UnOp)
+		if !ok || u.Op != token.NOT {
+			break
+		}
+		neg = !neg
+		cv = c.resolve(u.X, e)
+	}
+	if call, ok := cv.(*ssa.Call); ok && pol != neg {
+		if elems, subj, se, ok := c.membershipCall(call, e); ok {
+			var alts [][]Atom
+			sk := c.key(subj, se)
+			for i, el := range elems {
+				alt := []Atom{{Kind: "cmp", Subj: sk, Op: "==", Val: c.key(el, nil), Src: cond}}
+				for _, prev := range elems[:i] {
+					if c.key(prev, nil) != c.key(el, nil) {
+						alt = append(alt, Atom{Kind: "cmp", Subj: sk, Op: "!=", Val: c.key(prev, nil), Src: cond, Neg: true})
+					}
+				}
+				alts = append(alts, alt)
+			}
+			return alts
+		}
+	}
+	return [][]Atom{c.atoms(cond, pol, e)}
 }
